@@ -484,15 +484,38 @@ def _int_overflow(e) -> tuple[bool, int | None]:
     return bad, None
 
 
-def f3_shape(a) -> bool:
+def _c_reassoc(e):
+    """What the C back end computes: the C printer writes a right-nested chain of one operator without
+    parentheses (`x * (y * z)` is printed `x * y * z`, finding K-C06-1), and C parses that to the left."""
+    t = e[0]
+    if t in ("int", "float", "t"):
+        return e
+
+    def chain(x):
+        if x[0] == t:
+            return chain(x[1]) + chain(x[2])
+        return [_c_reassoc(x)]
+
+    items = chain(e)
+    out = items[0]
+    for it in items[1:]:
+        out = (t, out, it)
+    return out
+
+
+def f3_shape(a, backend: str = "llvm") -> bool:
     """The assignment has an integer literal outside int32, or -- possibly after zeroing some of
     its tensors the way exhaust_tensor does -- an all-integer-literal subexpression whose exact
-    value (or an intermediate of it) is outside int32."""
+    value (or an intermediate of it) is outside int32.  For the C back end the expression is first
+    re-associated the way the printed C text is parsed."""
     e = _desub(a[2])
     names = sorted(tensors_of(e))
     for r in range(len(names) + 1):
         for dead in itertools.combinations(names, r):
-            if _int_overflow(_zero(e, frozenset(dead)))[0]:
+            z = _zero(e, frozenset(dead))
+            if _int_overflow(z)[0]:
+                return True
+            if backend == "cffi" and _int_overflow(_c_reassoc(z))[0]:
                 return True
     return False
 
